@@ -178,6 +178,11 @@ def convert(raw, sid):
             elif op == "prelist":
                 sched.append(dict(pref(i), s="relist"))
                 p["live"] = False
+            elif op == "pgap":
+                g = {"res": pres, "name": "zz-gap", "ns": "zz", "labels": {"sel": "off"}}
+                if g not in objs:
+                    objs.append(g)
+                sched.append({"s": "relist", "res": pres, "name": "zz-gap", "ns": "zz"})
             else:
                 raise ValueError(op)
             if cust and op in ("pcreate", "prelabel", "pspec", "pdelete"):
@@ -212,6 +217,11 @@ def convert(raw, sid):
                 sched.append(dict(cref, s="direct", role="child", type="resync"))
             elif op == "crelist":
                 sched.append(dict(cref, s="relist"))
+            elif op == "cgap":
+                g = {"res": "things", "name": "zz-gap", "ns": "zz"}
+                if g not in objs:
+                    objs.append(g)
+                sched.append({"s": "relist", "res": "things", "name": "zz-gap", "ns": "zz"})
             else:
                 raise ValueError(op)
         elif op[0] == "r":
@@ -238,13 +248,13 @@ def convert(raw, sid):
     ops = [h["op"] for h in raw["hist"]]
     return {"id": sid, "fam": "triggers", "cfg": cfg, "objs": objs, "hook": hook, "sched": sched,
             "expect": {"model": {"must": raw.get("must", []), "mustnot": raw.get("mustnot", []), "ops": ops, "focus": w0["focus"]}},
-            "ops": ops, "real": any(o.endswith("relist") for o in ops)}
+            "ops": ops, "real": any(o.endswith("relist") or o.endswith("gap") for o in ops)}
 
 
 def is_core(s):
-    """pinned witnesses: single hand-made tombstones of parents (both deviations of the code as written
-    live there)"""
-    return s["ops"] == ["ptomb"]
+    """always replayed: every single event on a parent (few, and the two deviations of the code as written
+    -- tombstones of parents -- live there)"""
+    return len(s["ops"]) == 1 and s["ops"][0][0] == "p" and not s.get("real")
 
 
 # --------------------------------------------------------------------------------------
@@ -331,7 +341,8 @@ def pipeline(scr, tier, prop, plan, replay_file, module, cfg, judged, rule):
     for kind, pkg in (("composite", _props.COMPOSITE), ("decorator", _props.DECORATOR)):
         part = [s for s in scenarios if s["cfg"].get("kind", "composite") == kind]
         if part:
-            traces += _vlib.replay(scr, pkg, part, prop + "-" + kind, run="TestVerifTriggers")
+            traces += _vlib.replay(scr, pkg, part, prop + "-" + kind, run="TestVerifTriggers",
+                                   shards=max(_vlib.NCPU, min(32, len(part) // plan.get("per_shard", 600))))
     hits, st, tr = _vlib.validate_traces(scr, traces, module=module, cfg=cfg)
     states += st
     trans += tr
